@@ -78,6 +78,13 @@ def rule1_wait(ctx, v):
         ctx.ob('C07.1', 'block inside the re-check loop', f.in_loop(b) and
                not [r for r in f.exits() if r in f.reachable_from(b, blocked=[l for ic, l in done])],
                'after wake-up the state is re-read before returning', loc=b.loc)
+        gaps = [c_ for c_ in f.calls() if (c_.callee or '').startswith(('myth_yield', 'myth_swap', 'myth_block')) and c_ is not b and
+                any(c_ in f.reachable_from(c) for c in cas) and f.can_reach(c_, b)] + \
+               [x for x in f.order if x.op == 'call' and x.asm is not None and x is not b and any(x in f.reachable_from(c) for c in cas) and
+                f.can_reach(x, b)]
+        ctx.ob('C07.1', 'nothing yields the worker between the announcement and the block', not gaps,
+               'an announced waiter that sits in a run queue instead of the sleep queue makes the last decrementer wait for it in '
+               'myth_wake_many_from_queue: on one worker that is forever', loc=(gaps[0].loc if gaps else b.loc))
         ctx.ob('C07.1', 'blocks on own queue', lib.arg_is_field_of(f, b.args[0], JC + 'sleep_q') and
                same_value(f, f.ap(b.args[0]).root, 'a0'), 'sleeps on jc->sleep_q', loc=b.loc)
     ctx.ob('C07.1', 'has block site', len(call_sites(f, 'myth_block_on_queue')) == 1, 'one block site', loc=f.loc)
@@ -215,6 +222,8 @@ def run(ctx):
 
 SYNC = 'src/myth_sync_func.h'
 MUTANTS = [
+    {'name': 'waiter yields after announcing itself and before going to sleep (seed4 C07/m2)', 'expect': 'C07.1',
+     'edits': [(SYNC, "    myth_block_on_queue(jc->sleep_q, 0);\n    assert((jc->state & jc->state_mask) == jc->n_threads);", "    myth_yield_ex_body(myth_yield_option_local_first);\n    myth_block_on_queue(jc->sleep_q, 0);\n    assert((jc->state & jc->state_mask) == jc->n_threads);")]},
     {'name': 'join counter state word narrowed to int (seed3 C07/m3)', 'expect': 'C07.3',
      'edits': [('include/myth/myth.h', "    long state_mask;\t\t/* (1 << n_threads_bits) - 1 */\n    volatile long state;", "    long state_mask;\t\t/* (1 << n_threads_bits) - 1 */\n    volatile int state;")]},
     {'name': 'native myth_join_counter_dec forwards to wait', 'expect': 'C07.6',
